@@ -33,31 +33,34 @@ EXTENDS MessageLog
 CONSTANTS
   Pids,      \* proposal (command) identities offered for exact appends, positive integers
   ChanSeq,   \* sequence of the channel names: ids with id % Len(ChanSeq) = i - 1 belong to ChanSeq[i]
-  MaxUnrep   \* bound on Len(hist[c]) in the exhaustive runs
+  MaxUnrep,  \* bound on Len(hist[c]) in the exhaustive runs
+  Epochs     \* channel epochs offered for epoch-history points, positive integers
 
 VARIABLES
   ident,   \* ident[c] : seq -> pid             entry identities
   prop,    \* prop[c]  : pid -> [base, last]    proposal records (by-command and by-last pair)
   hist,    \* hist[c]  : sequence of channel snapshots, see above
-  hbase    \* hbase[c] : absolute position of hist[c][1] in the channel's commit sequence
+  hbase,   \* hbase[c] : absolute position of hist[c][1] in the channel's commit sequence
+  eh       \* eh[c]    : epoch history, the sequence of points [e |-> epoch, s |-> start offset]
+           \*            in key order (history.go; written on the compatibility surface only)
 
-cvars == <<rows, ret, ckpt, idem, cli, snd, idIdx, mem, open, dbOpen, cfg, ev, ident, prop, hist, hbase>>
+cvars == <<rows, ret, ckpt, idem, cli, snd, idIdx, mem, open, dbOpen, cfg, ev, ident, prop, hist, hbase, eh>>
 
 -------------------------------------------------------------------------------
 \* Channel snapshots.
 
 IdsOfIn(IX, c) == {i \in DOMAIN IX : IX[i].c = c}
 
-MkSnap(R, RT, CK, IM, CL, SN, IX, ID, PR, c) ==
+MkSnap(R, RT, CK, IM, CL, SN, IX, ID, PR, EH, c) ==
   [rows |-> R[c], idem |-> IM[c], cli |-> CL[c], snd |-> SN[c],
    ids  |-> [i \in IdsOfIn(IX, c) |-> IX[i].s],
-   ret  |-> RT[c], ckpt |-> CK[c], ident |-> ID[c], prop |-> PR[c], disc |-> FALSE]
+   ret  |-> RT[c], ckpt |-> CK[c], ident |-> ID[c], prop |-> PR[c], eh |-> EH[c], disc |-> FALSE]
 
-Snap(c)  == MkSnap(rows, ret, ckpt, idem, cli, snd, idIdx, ident, prop, c)
-SnapP(c) == MkSnap(rows', ret', ckpt', idem', cli', snd', idIdx', ident', prop', c)
+Snap(c)  == MkSnap(rows, ret, ckpt, idem, cli, snd, idIdx, ident, prop, eh, c)
+SnapP(c) == MkSnap(rows', ret', ckpt', idem', cli', snd', idIdx', ident', prop', eh', c)
 
 EmptySnap == [rows |-> Empty, idem |-> Empty, cli |-> {}, snd |-> {}, ids |-> Empty,
-              ret |-> NoRet, ckpt |-> NoCkpt, ident |-> Empty, prop |-> Empty, disc |-> FALSE]
+              ret |-> NoRet, ckpt |-> NoCkpt, ident |-> Empty, prop |-> Empty, eh |-> << >>, disc |-> FALSE]
 
 LastOf(q) == q[Len(q)]
 
@@ -105,7 +108,7 @@ HomeOK(c, recs) == \A i \in 1..Len(recs) : Home(recs[i].id) = c
 -------------------------------------------------------------------------------
 \* The MessageLog mutations as commits.
 
-KeepX == UNCHANGED <<ident, prop, hbase>>
+KeepX == UNCHANGED <<ident, prop, hbase, eh>>
 
 CAppend(c, mode, base, recs)     == DoAppend(c, mode, base, recs) /\ KeepX /\ Commit1(c)
 CApply(c, mode, base, recs, hw)  == DoApply(c, mode, base, recs, hw) /\ KeepX /\ Commit1(c)
@@ -125,18 +128,18 @@ CTruncate(c, to) ==
   IN IF cuts /\ straddle
        THEN /\ Usable(c)
             /\ ev' = [a |-> "Truncate", c |-> c, to |-> to, res |-> [err |-> "rejected"]]
-            /\ UNCHANGED <<durable, mem, open, dbOpen, cfg, ident, prop, hist, hbase>>
+            /\ UNCHANGED <<durable, mem, open, dbOpen, cfg, ident, prop, hist, hbase, eh>>
        ELSE /\ Truncate(c, to)
+            /\ UNCHANGED <<hbase, eh>>
             /\ ident' = IF cuts THEN [ident EXCEPT ![c] = Del(@, {s \in DOMAIN @ : s > to})] ELSE ident
             /\ prop'  = IF cuts THEN [prop EXCEPT ![c] = Del(@, {q \in DOMAIN @ : @[q].last > to})] ELSE prop
             /\ Commit1(c)
-            /\ UNCHANGED hbase
 
 \* LEO() of a leased channel: the cached log end, which the code documents as durable.
 LeoRead(c) ==
   /\ Usable(c)
   /\ ev' = [a |-> "Leo", c |-> c, res |-> [leo |-> Leo(c)]]
-  /\ UNCHANGED <<durable, mem, open, dbOpen, cfg, ident, prop, hist, hbase>>
+  /\ UNCHANGED <<durable, mem, open, dbOpen, cfg, ident, prop, hist, hbase, eh>>
 
 -------------------------------------------------------------------------------
 (* ExAppend(c, pid, b, recs, mode, hw): StoreAppendBatch with one exact item
@@ -148,6 +151,7 @@ XRes(err, out, b, l) == [err |-> err, out |-> out, base |-> b, last |-> l]
 
 ExAppend(c, pid, b, recs, mode, hw) ==
   /\ Usable(c) /\ Compat
+  /\ UNCHANGED eh
   /\ mode \in {"strict", "alloc"}
   /\ recs # <<>>
   /\ b + Len(recs) <= MaxSeq
@@ -193,7 +197,7 @@ ExAppend(c, pid, b, recs, mode, hw) ==
   /\ UNCHANGED <<open, dbOpen, cfg, hbase>>
 
 (* Replace(c, keep, ps, hw): ReplaceRecoverySuffix.  Everything above `keep` is deleted
-   (rows, indexes, identities, proposals), the proposals ps = <<[pid, recs], ...>> are
+   (rows, indexes, identities, proposals, epoch points that start above it), the proposals ps = <<[pid, recs], ...>> are
    installed after it and the checkpoint is set to hw, in one commit.  The request carries
    the frontier the caller inspected (taken here as the current one). *)
 RECURSIVE Flat(_, _)
@@ -240,7 +244,7 @@ Replace(c, keep, ps, hw) ==
         /\ CkHW(c) <= leo /\ TailOK(Snap(c), leo)
         /\ IF refused
              THEN /\ ev' = E([err |-> "rejected", out |-> "none", last |-> 0])
-                  /\ UNCHANGED <<durable, mem, ident, prop, hist>>
+                  /\ UNCHANGED <<durable, mem, ident, prop, hist, eh>>
              ELSE /\ InstallRows(c, new)
                   /\ ckpt'  = [ckpt EXCEPT ![c] = [has |-> TRUE, hw |-> hw]]
                   /\ ret'   = IF ret[c].has /\ ret[c].rmax > final THEN [ret EXCEPT ![c].rmax = final] ELSE ret
@@ -250,13 +254,14 @@ Replace(c, keep, ps, hw) ==
                                           ![c].fk = IF mem[c].fl
                                                       THEN @ \cup {KeyOf(all[i]) : i \in {j \in 1..Len(all) : HasKey(all[j])}}
                                                       ELSE @]
+                  /\ eh'    = [eh EXCEPT ![c] = SelectSeq(@, LAMBDA p : p.s <= keep)]
                   /\ ev'    = E([err |-> "", out |-> "durable", last |-> final])
                   /\ Commit1(c)
   /\ UNCHANGED <<open, dbOpen, cfg, hbase>>
 
 (* Discard(c): DiscardForRestore.  The rows are deleted with their indexes page by page,
    lowest sequences first, one commit per page; a last commit removes the whole channel
-   partition (retention state, checkpoint, identities, proposals).  The page boundaries
+   partition (retention state, checkpoint, identities, proposals, epoch history).  The page boundaries
    are an implementation detail (1024 rows or 8 MiB), so every row count is admitted as
    a boundary.  The states between the pages (marked disc) are states of the code, not of
    the property: rows are missing from the front without a retention boundary and, once
@@ -273,10 +278,108 @@ Discard(c) ==
         /\ ckpt'  = [ckpt EXCEPT ![c] = NoCkpt]
         /\ ident' = [ident EXCEPT ![c] = Empty]
         /\ prop'  = [prop EXCEPT ![c] = Empty]
+        /\ eh'    = [eh EXCEPT ![c] = << >>]
         /\ mem'   = [mem EXCEPT ![c].leo = 0]
         /\ hist'  = [hist EXCEPT ![c] =
                        IF s0 = EmptySnap THEN @ ELSE @ \o mids \o << EmptySnap >>]
         /\ ev' = [a |-> "Discard", c |-> c, res |-> [err |-> ""]]
+  /\ UNCHANGED <<open, dbOpen, cfg, hbase>>
+
+-------------------------------------------------------------------------------
+(* Epoch history (history.go, compat.go; compatibility surface).  A point [e, s] says that
+   epoch e owns the offsets from s on (its first row is s + 1).  The rows are keyed by
+   (start offset, epoch); a point is only ever added after the last one
+   (shouldAppendHistoryPoint: a higher epoch at the same or a higher offset; repeating the
+   last point is a no-op; anything else is refused), so eh[c] is in key order.
+     BeginEpoch(c, e, s)        BeginEpoch(point, expectedLEO = s): refused unless s is the log end
+     AppendHist(c, e, s)        AppendHistory(point): no log-end check (the caller's obligation,
+                                see Next9: offered at or below the log end only)
+     ApplyE(c, mode, recs, hw, e, s)
+                                StoreApplyFetchWithEpoch / StoreApplyFetchTrustedWithEpoch: rows,
+                                raised watermark and the point [e, s] (s = the log end before
+                                the rows) in one commit
+     TruncLH(c, to)             TruncateLogAndHistory(to): the rows above `to` with their indexes,
+                                identities and proposals AND the points that start above `to`,
+                                one commit (also when to is the log end)
+     HistTrunc(c, t)            TruncateHistoryTo(t): the points that start above t
+   A plain Truncate leaves the history alone; the callers only use it where no point starts
+   above the target (Next9). *)
+ShouldAppend(h, e, s) ==
+  IF e = 0 THEN "bad"
+  ELSE IF h = << >> THEN "write"
+  ELSE LET l == h[Len(h)] IN
+       IF e > l.e THEN (IF s < l.s THEN "bad" ELSE "write")
+       ELSE IF e = l.e /\ s = l.s THEN "same" ELSE "bad"
+
+HistBelow(h, to) == SelectSeq(h, LAMBDA p : p.s <= to)
+NoneAbove(c, to) == \A i \in 1..Len(eh[c]) : eh[c][i].s <= to
+
+HistPoint(a, c, e, s, bad) ==
+  /\ Usable(c) /\ Compat
+  /\ LET sa == IF bad THEN "bad" ELSE ShouldAppend(eh[c], e, s)
+     IN /\ eh' = IF sa = "write" THEN [eh EXCEPT ![c] = Append(@, [e |-> e, s |-> s])] ELSE eh
+        /\ ev' = [a |-> a, c |-> c, e |-> e, s |-> s, res |-> [err |-> IF sa = "bad" THEN "rejected" ELSE ""]]
+  /\ UNCHANGED <<durable, mem, open, dbOpen, cfg, ident, prop, hbase>>
+  /\ Commit1(c)
+
+BeginEpoch(c, e, s) == HistPoint("BeginEpoch", c, e, s, s # Leo(c))
+AppendHist(c, e, s) == HistPoint("AppendHist", c, e, s, FALSE)
+
+HistTrunc(c, t) ==
+  /\ Usable(c) /\ Compat
+  /\ eh' = [eh EXCEPT ![c] = HistBelow(@, t)]
+  /\ ev' = [a |-> "HistTrunc", c |-> c, t |-> t, res |-> [err |-> ""]]
+  /\ UNCHANGED <<durable, mem, open, dbOpen, cfg, ident, prop, hbase>>
+  /\ Commit1(c)
+
+ApplyE(c, mode, recs, hw, e, s) ==
+  /\ Usable(c) /\ Compat
+  /\ mode \in {"strict", "trusted"}
+  /\ EnvOK(c, mode, recs)
+  /\ Leo(c) + Len(recs) <= MaxSeq
+  /\ LET exp    == Leo(c) + 1
+         next   == Leo(c) + Len(recs)
+         v      == Validate(c, mode, recs, exp)
+         hwBad  == hw > 0 /\ hw > next
+         hwSet  == hw > 0 /\ (~ckpt[c].has \/ hw > ckpt[c].hw)
+         sa     == ShouldAppend(eh[c], e, s)
+         ptBad  == s # Leo(c) \/ sa = "bad"
+         walked == recs # <<>> /\ ~hwBad /\ ~ptBad
+         err    == IF hwBad \/ ptBad THEN "rejected" ELSE IF recs # <<>> /\ v.err # "" THEN v.err ELSE ""
+     IN /\ ev' = [a |-> "ApplyE", c |-> c, mode |-> mode, recs |-> recs, hw |-> hw, e |-> e, s |-> s,
+                  res |-> AppRes(err, exp, Len(recs))]
+        /\ IF err # ""
+             THEN /\ mem' = IF walked THEN [mem EXCEPT ![c].fl = v.fl, ![c].fk = v.fk] ELSE mem
+                  /\ UNCHANGED <<durable, eh>>
+             ELSE /\ IF recs # <<>>
+                       THEN /\ Stage(c, recs, exp)
+                            /\ mem' = [mem EXCEPT ![c].fl = v.fl, ![c].fk = v.fk, ![c].leo = next]
+                       ELSE UNCHANGED <<rows, idIdx, idem, cli, snd, mem>>
+                  /\ ckpt' = IF hwSet THEN [ckpt EXCEPT ![c] = [has |-> TRUE, hw |-> hw]] ELSE ckpt
+                  /\ eh'   = IF sa = "write" THEN [eh EXCEPT ![c] = Append(@, [e |-> e, s |-> s])] ELSE eh
+                  /\ UNCHANGED ret
+  /\ UNCHANGED <<open, dbOpen, cfg, ident, prop, hbase>>
+  /\ Commit1(c)
+
+TruncLH(c, to) ==
+  /\ Usable(c) /\ Compat
+  /\ LET leo      == Leo(c)
+         refused  == to > leo \/ (ret[c].has /\ to < ret[c].local)
+         S        == {s \in RowSeqs(c) : s > to}
+         straddle == \E q \in DOMAIN prop[c] : prop[c][q].base < to /\ to < prop[c][q].last
+         E(err)   == [a |-> "TruncLH", c |-> c, to |-> to, res |-> [err |-> err]]
+     IN IF refused \/ straddle
+          THEN /\ ev' = E("rejected")
+               /\ UNCHANGED <<durable, mem, ident, prop, hist, eh>>
+          ELSE /\ Unstage(c, S)
+               /\ ret'   = IF ret[c].has /\ ret[c].rmax > to THEN [ret EXCEPT ![c].rmax = to] ELSE ret
+               /\ mem'   = [mem EXCEPT ![c].leo = to]
+               /\ ident' = [ident EXCEPT ![c] = Del(@, {s \in DOMAIN @ : s > to})]
+               /\ prop'  = [prop EXCEPT ![c] = Del(@, {q \in DOMAIN @ : @[q].last > to})]
+               /\ eh'    = [eh EXCEPT ![c] = HistBelow(@, to)]
+               /\ ev'    = E("")
+               /\ UNCHANGED ckpt
+               /\ Commit1(c)
   /\ UNCHANGED <<open, dbOpen, cfg, hbase>>
 
 -------------------------------------------------------------------------------
@@ -288,7 +391,7 @@ Report(c, i) ==
   /\ hist'  = [hist EXCEPT ![c] = SubSeq(@, i, Len(@))]
   /\ hbase' = [hbase EXCEPT ![c] = @ + i - 1]
   /\ ev' = [a |-> "Report", c |-> c, i |-> i]
-  /\ UNCHANGED <<durable, mem, open, dbOpen, cfg, ident, prop>>
+  /\ UNCHANGED <<durable, mem, open, dbOpen, cfg, ident, prop, eh>>
 
 MergeIds(sn) ==  \* sn : channel -> snapshot
   LET D == UNION {DOMAIN sn[c].ids : c \in Chans}
@@ -307,6 +410,7 @@ Crash(k) ==
         /\ ckpt'  = [c \in Chans |-> sn[c].ckpt]
         /\ ident' = [c \in Chans |-> sn[c].ident]
         /\ prop'  = [c \in Chans |-> sn[c].prop]
+        /\ eh'    = [c \in Chans |-> sn[c].eh]
         /\ idIdx' = MergeIds(sn)
         /\ hist'  = [c \in Chans |-> << sn[c] >>]
         /\ hbase' = [c \in Chans |-> hbase[c] + k[c] - 1]
@@ -315,7 +419,7 @@ Crash(k) ==
   /\ ev' = [a |-> "Crash", k |-> k]
   /\ UNCHANGED <<dbOpen, cfg>>
 
-Lease(c) == open[c] = 0 /\ OpenLease(c) /\ UNCHANGED <<ident, prop, hist, hbase>>
+Lease(c) == open[c] = 0 /\ OpenLease(c) /\ UNCHANGED <<ident, prop, hist, hbase, eh>>
 
 -------------------------------------------------------------------------------
 \* The store right after Init with every channel leased (how the harness starts).
@@ -335,6 +439,7 @@ CInit ==
   /\ prop  = [c \in Chans |-> Empty]
   /\ hist  = [c \in Chans |-> << EmptySnap >>]
   /\ hbase = [c \in Chans |-> 1]
+  /\ eh    = [c \in Chans |-> << >>]
 
 Init9 ==
   /\ CInit
@@ -353,7 +458,7 @@ Room(c) == Len(hist[c]) < MaxUnrep /\ ~LastOf(hist[c]).disc
 MAppend   == \E c \in Chans, m \in Modes, recs \in Batches : Room(c) /\ HomeOK(c, recs) /\ CAppend(c, m, 0, recs)
 MApply    == \E c \in Chans, m \in {"strict", "trusted"}, recs \in Batches, hw \in {0} \cup HWs :
                 Room(c) /\ HomeOK(c, recs) /\ CApply(c, m, 0, recs, hw)
-MTruncate == \E c \in Chans, to \in 0..MaxSeq : Room(c) /\ to >= CkHW(c) /\ CTruncate(c, to)
+MTruncate == \E c \in Chans, to \in 0..MaxSeq : Room(c) /\ to >= CkHW(c) /\ (to >= Leo(c) \/ NoneAbove(c, to)) /\ CTruncate(c, to)
 MAdopt    == \E c \in Chans, t \in 0..MaxSeq : Room(c) /\ CAdopt(c, t)
 MTrim     == \E c \in Chans, t \in 0..MaxSeq, lim \in {0, 1} : Room(c) /\ CTrim(c, t, lim)
 MCkpt     == \E c \in Chans, hw \in HWs : Room(c) /\ hw <= Leo(c) /\ CCkpt(c, hw)
@@ -366,10 +471,17 @@ MLeo      == \E c \in Chans : LeoRead(c)
 MReport   == \E c \in Chans, i \in 2..(MaxUnrep + MaxSeq + 2) : Report(c, i)
 MCrash    == \E k \in [Chans -> 1..(MaxUnrep + MaxSeq + 2)] : Crash(k)
 MLease    == \E c \in Chans : Lease(c)
+MBeginEpoch == \E c \in Chans, e \in Epochs, s \in 0..MaxSeq : Room(c) /\ BeginEpoch(c, e, s)
+MAppendHist == \E c \in Chans, e \in Epochs, s \in 0..MaxSeq : Room(c) /\ s <= Leo(c) /\ AppendHist(c, e, s)
+MApplyE     == \E c \in Chans, m \in {"strict", "trusted"}, recs \in Batches, hw \in {0} \cup HWs, e \in Epochs :
+                  Room(c) /\ HomeOK(c, recs) /\ ApplyE(c, m, recs, hw, e, Leo(c))
+MTruncLH    == \E c \in Chans, to \in 0..MaxSeq : Room(c) /\ to >= CkHW(c) /\ TruncLH(c, to)
+MHistTrunc  == \E c \in Chans, t \in 0..MaxSeq : Room(c) /\ HistTrunc(c, t)
 
 Next9 ==
   \/ MAppend \/ MApply \/ MTruncate \/ MAdopt \/ MTrim \/ MCkpt \/ MCkptMono
   \/ MExAppend \/ MReplace \/ MDiscard \/ MLeo \/ MReport \/ MCrash \/ MLease
+  \/ MBeginEpoch \/ MAppendHist \/ MApplyE \/ MTruncLH \/ MHistTrunc
 
 Spec9 == Init9 /\ [][Next9]_cvars
 
@@ -378,8 +490,8 @@ Spec9 == Init9 /\ [][Next9]_cvars
    MessageLog projection read through a fresh lease (cold log end, filter not loaded),
    the retention state, and, on the compatibility surface, the exact frontier
    (LoadDurableFrontier: fails closed on a missing tail proof or a checkpoint above the
-   log end), the entry identities of the probe window and the proposal of every probe
-   command. *)
+   log end), the entry identities of the probe window, the proposal of every probe
+   command and the epoch history (LoadHistory). *)
 ColdS(sn, c) ==
   [rows |-> [d \in {c} |-> sn.rows], ckpt |-> [d \in {c} |-> sn.ckpt], idem |-> [d \in {c} |-> sn.idem],
    cli |-> [d \in {c} |-> sn.cli], snd |-> [d \in {c} |-> sn.snd],
@@ -409,14 +521,15 @@ ExProj(sn, c) ==
 ColdProj(sn, c) ==
   [m   |-> ProjChan(ColdS(sn, c), c),
    ret |-> [has |-> sn.ret.has, local |-> sn.ret.local, phys |-> sn.ret.phys, rmax |-> sn.ret.rmax],
-   ex  |-> ExProj(sn, c)]
+   ex  |-> ExProj(sn, c),
+   eh  |-> sn.eh]
 
 -------------------------------------------------------------------------------
 \* Properties.
 
 \* every state a channel can come back in is a sound store: indexes match rows, the
 \* retained rows are contiguous, the watermark does not exceed the log end, identities and
-\* proposals cover each other
+\* proposals cover each other, the epoch history is ordered and no epoch starts beyond the log end
 SnapIndexSound(sn) ==
   LET leo == SnapLogEnd(sn) IN
      /\ \A s \in DOMAIN sn.rows :
@@ -432,6 +545,7 @@ SnapIndexSound(sn) ==
      /\ \A q \in DOMAIN sn.prop : \A s \in (sn.prop[q].base + 1)..sn.prop[q].last : s \in DOMAIN sn.ident /\ sn.ident[s] = q
      /\ \A s \in DOMAIN sn.ident : sn.ident[s] \in DOMAIN sn.prop
                                    /\ sn.prop[sn.ident[s]].base < s /\ s <= sn.prop[sn.ident[s]].last
+     /\ \A i \in 1..(Len(sn.eh) - 1) : sn.eh[i].e < sn.eh[i + 1].e /\ sn.eh[i].s <= sn.eh[i + 1].s
 
 SnapLogSound(sn) ==
   LET lo    == sn.ret.local
@@ -444,6 +558,8 @@ SnapLogSound(sn) ==
      /\ (Upper # {} => leo = last)
      /\ (sn.ckpt.has => sn.ckpt.hw <= leo)
      /\ \A s \in DOMAIN sn.ident : s <= leo
+     \* no epoch starts beyond the log end (its first row would be s + 1 <= log end + 1)
+     /\ \A i \in 1..Len(sn.eh) : sn.eh[i].s <= leo
 
 C09_EveryCrashImageSound ==
   \A c \in Chans : \A i \in 1..Len(hist[c]) :
@@ -470,5 +586,5 @@ C09_RecoversAPrefix ==
 C09_ReportKeeps ==
   [][ev'.a = "Report" => \A c \in Chans : LastOf(hist'[c]) = LastOf(hist[c]) /\ durable' = durable]_cvars
 
-View9 == <<rows, ret, ckpt, idem, cli, snd, idIdx, mem, open, dbOpen, cfg, ident, prop, hist>>
+View9 == <<rows, ret, ckpt, idem, cli, snd, idIdx, mem, open, dbOpen, cfg, ident, prop, hist, eh>>
 ===============================================================================
